@@ -54,7 +54,9 @@ type Case struct {
 }
 
 func genOp(t *rapid.T) Op {
-	switch rapid.IntRange(0, 13).Draw(t, "kind") {
+	switch rapid.IntRange(0, 15).Draw(t, "kind") {
+	case 14, 15:
+		return Op{Kind: "merge", Pool: "p", Branch: "b", Other: "main"}
 	case 0, 1, 2:
 		return Op{Kind: "load", Pool: "p", Branch: rapid.SampledFrom([]string{"main", "main", "b"}).Draw(t, "br"), Batch: rapid.IntRange(0, 2).Draw(t, "batch")}
 	case 3, 4, 5:
@@ -114,6 +116,9 @@ type mpool struct {
 	name     string
 	branches map[string]map[string]bool // branch -> live item names
 }
+
+// baseObjs are the item names of the initial objects of pool p: the content of the common ancestor of main and b.
+var baseObjs []string
 
 // identity of the pool an operation addresses: the initial pools are addressed by id (resolved before the
 // concurrent phase, like object ids), so they stay addressable after a rename.
@@ -212,6 +217,46 @@ func (m *model) apply(e *event) bool {
 		delete(p.branches, op.Branch)
 		return true
 	}
+	if op.Kind == "merge" {
+		child, ok1 := p.branches[op.Branch]
+		parent, ok2 := p.branches[op.Other]
+		if !ok1 || !ok2 {
+			return false
+		}
+		base := map[string]bool{}
+		for _, id := range baseObjs {
+			base[id] = true
+		}
+		changed := false
+		// everything the child deleted since the common ancestor must still be in the parent (else: delete conflict)
+		for id := range base {
+			if !child[id] {
+				if !parent[id] {
+					return false
+				}
+				changed = true
+			}
+		}
+		for id := range child {
+			if !base[id] && !parent[id] {
+				changed = true
+			}
+		}
+		if !changed {
+			return false // "difference is empty"
+		}
+		for id := range base {
+			if !child[id] {
+				delete(parent, id)
+			}
+		}
+		for id := range child {
+			if !base[id] {
+				parent[id] = true
+			}
+		}
+		return true
+	}
 	b, ok := p.branches[op.Branch]
 	if !ok {
 		return false
@@ -285,6 +330,30 @@ func runCase(c Case) *vt.Outcome {
 		o.Fail = fail("C12/setup", "%v", err)
 		return o
 	}
+	// branch b diverges from main: it deletes the first initial object and loads a batch of its own, so that a
+	// merge of b into main both adds and deletes, and contends with deletes/compactions of that object on main
+	{
+		objs0, _, err := setup.Objects(ctx, pool, tip)
+		if err != nil || len(objs0) == 0 {
+			o.Fail = fail("C12/setup", "%v", err)
+			return o
+		}
+		first := objs0[0].ID
+		for _, ob := range objs0 {
+			if ob.ID.String() < first.String() {
+				first = ob.ID
+			}
+		}
+		if _, err := setup.API.Delete(ctx, pool, "b", []ksuid.KSUID{first}, lakeh.Msg); err != nil {
+			o.Fail = fail("C12/setup", "%v", err)
+			return o
+		}
+		bb := c.Batches[2%len(c.Batches)]
+		if _, err := setup.Load(ctx, pool, "b", bb.Zctx, bb.Vals); err != nil {
+			o.Fail = fail("C12/setup", "%v", err)
+			return o
+		}
+	}
 	zctx := zed.NewContext()
 	objs, _, err := setup.Objects(ctx, pool, tip)
 	if err != nil {
@@ -292,6 +361,7 @@ func runCase(c Case) *vt.Outcome {
 		return o
 	}
 	var ids []ksuid.KSUID
+	baseObjs = baseObjs[:0]
 	items := map[string]*item{}
 	for _, ob := range objs {
 		ids = append(ids, ob.ID)
@@ -310,10 +380,16 @@ func runCase(c Case) *vt.Outcome {
 		return o
 	}
 	poolIDs := map[string]ksuid.KSUID{"p": pool, "q": qID}
-	for _, id := range ids {
+	for i, id := range ids {
 		init.pools["p"].branches["main"]["obj:"+id.String()] = true
-		init.pools["p"].branches["b"]["obj:"+id.String()] = true
+		if i > 0 { // b deleted the first (lowest id) initial object ...
+			init.pools["p"].branches["b"]["obj:"+id.String()] = true
+		}
+		baseObjs = append(baseObjs, "obj:"+id.String())
 	}
+	// ... and loaded a batch of its own
+	init.pools["p"].branches["b"]["bsetup"] = true
+	items["bsetup"] = &item{vals: lakeh.Translate(zctx, c.Batches[2%len(c.Batches)].Vals)}
 	// clients
 	gate := memstore.NewGate()
 	var now = func() int { return 0 }
@@ -609,7 +685,11 @@ func runCase(c Case) *vt.Outcome {
 				}
 				continue
 			}
-			ob, ok := op.branches[e.op.Branch]
+			target := e.op.Branch
+			if e.op.Kind == "merge" {
+				target = e.op.Other
+			}
+			ob, ok := op.branches[target]
 			if !ok {
 				if !dropped {
 					return fail("C12/acknowledged-commit-lost", "the branch of %s no longer exists\n%s", e.name(), describe())
@@ -815,6 +895,8 @@ func perform(ctx context.Context, lk *lakeh.Lake, c *Case, e *event, poolIDs map
 		return api.Compact(ctx, id, op.Branch, toIDs(), false, lakeh.Msg)
 	case "addvec":
 		return api.AddVectors(ctx, id.String(), op.Branch, toIDs(), lakeh.Msg)
+	case "merge":
+		return api.MergeBranch(ctx, id, op.Branch, op.Other, lakeh.Msg)
 	}
 	return ksuid.Nil, fmt.Errorf("unknown op %s", op.Kind)
 }
@@ -878,6 +960,9 @@ var pairs = [][2]Op{
 	{{Kind: "createbranch", Pool: "p", Branch: "c"}, {Kind: "createbranch", Pool: "p", Branch: "c"}},
 	{{Kind: "addvec", Pool: "p", Branch: "main", Pick: []int{0}}, {Kind: "compact", Pool: "p", Branch: "main", Pick: []int{0, 1}}},
 	{{Kind: "dropbranch", Pool: "p", Branch: "b"}, {Kind: "load", Pool: "p", Branch: "b", Batch: 2}},
+	{{Kind: "merge", Pool: "p", Branch: "b", Other: "main"}, {Kind: "delete", Pool: "p", Branch: "main", Pick: []int{0}}},
+	{{Kind: "merge", Pool: "p", Branch: "b", Other: "main"}, {Kind: "load", Pool: "p", Branch: "main", Batch: 1}},
+	{{Kind: "merge", Pool: "p", Branch: "b", Other: "main"}, {Kind: "compact", Pool: "p", Branch: "main", Pick: []int{0, 1}}},
 }
 
 func pairBase(pc PairCase) Case {
@@ -944,7 +1029,7 @@ var pairCounter int
 
 var pairProp = &vt.Prop[PairCase]{
 	Name: "TestPairsExhaustive",
-	Rule: "EXHAUSTIVE over schedules with at most 2 preemptions for 9 contending operation pairs (load||load, load||delete, delete||delete(overlapping ids), compact||delete, createpool||createpool(same name), renamepool||droppool, createbranch||createbranch(same name), addvec||compact, dropbranch||load) x both start orders x both storage modes: A runs i storage steps, B runs j steps, A runs to completion, B runs to completion, for every i and j; each schedule is judged by the same oracles as TestLinearizable. " +
+	Rule: "EXHAUSTIVE over schedules with at most 2 preemptions for 12 contending operation pairs (merge||delete(same object), merge||load, merge||compact, load||load, load||delete, delete||delete(overlapping ids), compact||delete, createpool||createpool(same name), renamepool||droppool, createbranch||createbranch(same name), addvec||compact, dropbranch||load) x both start orders x both storage modes: A runs i storage steps, B runs j steps, A runs to completion, B runs to completion, for every i and j; each schedule is judged by the same oracles as TestLinearizable. " +
 		"A schedule is non-trivial when the two acknowledged operations overlapped in scheduler time; distinct = (pair, mode, order, i, j).",
 	Gen: func(t *rapid.T) PairCase {
 		shard, shards := 0, 1
@@ -968,7 +1053,7 @@ var pairProp = &vt.Prop[PairCase]{
 
 func TestPairsExhaustive(t *testing.T) {
 	vt.SetExtra("TestPairsExhaustive", "exhaustive", vt.Thorough())
-	vt.SetExtra("TestPairsExhaustive", "exhaustive_space", "thorough: all (i,j) two-preemption schedules of 9 pairs x 2 orders x 2 storage modes (36 checks per shard cover every combination); quick: a 1/8 slice of 9 combinations per shard")
+	vt.SetExtra("TestPairsExhaustive", "exhaustive_space", "thorough: all (i,j) two-preemption schedules of 12 pairs x 2 orders x 2 storage modes (48 checks per shard cover every combination); quick: a 1/8 slice of 12 combinations per shard")
 	pairProp.Check(t)
 }
 
